@@ -1,6 +1,7 @@
 """C11 — relation queries return exactly the declared relations; closures terminate."""
 from __future__ import annotations
 import ast
+from ..pat import Frag
 from ..src import norm, walk_no_nested, AnalysisError
 from ..loops import all_whiles, classify_while, recursion_cycles
 from ..pyutil import parents, is_self_attr
@@ -299,13 +300,13 @@ def r5_dedupe(ctx, res):
     for cname, it in (('Synset', '_iter_relations'), ('Sense', '_iter_sense_relations')):
         f = ctx.repo.func('_core', f'{cname}.get_related')
         key = f'get_related:{cname}'
-        src = norm(f.node)
+        src = Frag(f.node)
         res.inst(key, f.module.loc(f.node), 'unique_list over the relation iterator with the requested types')
         if 'unique_list(' not in src or f'self.{it}(*args)' not in src:
             res.find(key, f.module.loc(f.node), f'{cname}.get_related no longer de-duplicates order-preservingly over self.{it}(*args)')
         g = ctx.repo.func('_core', f'{cname}.relations')
         key = f'relations:{cname}'
-        src = norm(g.node)
+        src = Frag(g.node)
         res.inst(key, g.module.loc(g.node), 'dict-as-ordered-set per relation name')
         if f'self.{it}(*args)' not in src or 'setdefault(relation.name, {})' not in src:
             res.find(key, g.module.loc(g.node), f'{cname}.relations no longer groups targets per relation name in an order-preserving mapping '
